@@ -83,7 +83,7 @@ def check(ctx):
     ctx.check(ok, "C09.c", "runner:replay-after-reinsertion", R.loc(retains[0]) if retains else "%s:%d" % (R.file, R.line),
               "replay is reachable from every re-insertion and no re-insertion follows it",
               "postponed commands are replayed before the finished system was re-inserted (they would be postponed again or discarded)")
-    n = core.adopt(ctx, c02, lambda o: o["rule"] == "C02.c" and "::replay:" in o["key"], "C09.c")
+    n = core.adopt(ctx, c02, lambda o: o["rule"] == "C02.c", "C09.c")      # the whole postponed-recursion replay (present, on every run path, per-element obligations)
     ctx.floor("C09.c", n, 4, "shared replay-closure obligations")
     import c08
     n = core.adopt(ctx, c08, lambda o: o["rule"] == "C08.e" and ("runner:" in o["key"] or "poll:" in o["key"]), "C09.c")
